@@ -319,6 +319,7 @@ type lockSeen struct {
 
 type outcome struct {
 	infra, hung string
+	void        string // the store implementation panicked: the case says nothing
 	viol        []string
 	classes     []string
 	nontrivial  bool
@@ -340,6 +341,7 @@ func run(c *tcase) (o outcome) {
 		return
 	}
 	defer cl.Close()
+	defer func() { o.void = cl.StorePanic() }()
 	for _, k := range c.splits {
 		cl.SplitAt(k)
 	}
@@ -532,6 +534,9 @@ func snapshots(t *testing.T, backend sim.Backend) {
 	rapid.Check(t, func(t *rapid.T) {
 		c := gen(t, backend, rec)
 		o := run(c)
+		if o.void != "" {
+			t.Skip("void case: " + o.void) // substrate defect (13.6)
+		}
 		if o.hung != "" || o.infra != "" {
 			t.Fatalf("VERIF-INFRA: %s %s\n  case: %s", o.hung, o.infra, c)
 		}
